@@ -41,11 +41,19 @@ def run_routing(env, rng, out, classes):
   sink = tprov.CreateSink({SinkProperties.Endpoint: ep, SinkProperties.Label: 'kafka'})
   classes.add('routing')
   out.obligations += 1
-  try:
-    sink.Open().get(timeout=5)
-  except Exception as e:  # noqa
-    out.violate('routing:open-failed', 'kafka transport open failed: %r' % e, {})
-    return
+  # calls issued while the broker connection is still being established are parked by the
+  # transport until the open completes
+  while_opening = rng.random() < 0.3
+  if while_opening:
+    broker.sim.connect_latency = rng.choice([0.005, 0.02])
+    classes.add('routing:while-opening')
+    open_ar = sink.Open()
+  else:
+    try:
+      sink.Open().get(timeout=5)
+    except Exception as e:  # noqa
+      out.violate('routing:open-failed', 'kafka transport open failed: %r' % e, {})
+      return
   n = rng.choice([1, 2, 5, 12, 20])
   calls = []
   deadline_of = {}
